@@ -623,3 +623,84 @@ Proof.
       rewrite Len. rewrite Nat.even_mul. reflexivity.
   - apply group_runs_Forall; [|constructor]. apply sort_by_Forall. exact Hs.
 Qed.
+
+(* ================================================================ the slot table as a whole ================================================================ *)
+Lemma same_group_refl r : same_group r r = true.
+Proof. unfold same_group. rewrite Z.eqb_refl, text_eqb_refl. reflexivity. Qed.
+
+Lemma nth_middle_map {A B} (f : A -> B) (l1 : list A) (x : A) (l2 : list A) (d : B) :
+  nth (length l1) (map f (l1 ++ x :: l2)) d = f x.
+Proof. rewrite map_app. rewrite app_nth2; rewrite map_length; [|lia]. rewrite Nat.sub_diag. reflexivity. Qed.
+
+Lemma filter_app_mid {A} (p : A -> bool) l1 x l2 : p x = true -> filter p (l1 ++ x :: l2) = filter p l1 ++ x :: filter p l2.
+Proof. intro H. rewrite filter_app. cbn. rewrite H. reflexivity. Qed.
+
+(* every row's line length (new_den) is a positive multiple of the row's own denominator: find_lcm is applied to the
+   row's (measure, channel) group and the row reads the entry at its own position in the group *)
+Theorem new_dens_divisible (thr : Z) (rows : list wrow) :
+  Forall (fun r => 0 < wr_den r) rows ->
+  Forall2 (fun r L => (wr_den r | L) /\ 0 < L) rows (new_dens thr rows).
+Proof.
+  intro P. unfold new_dens.
+  set (go := fix go (before rest : list wrow) {struct rest} : list Z :=
+         match rest with
+         | [] => []
+         | r :: rest' =>
+             nth (length (filter (same_group r) before)) (find_lcm thr (map wr_den (filter (same_group r) rows))) 0
+             :: go (before ++ [r]) rest'
+         end).
+  assert (G : forall rest before, rows = before ++ rest ->
+                Forall2 (fun r L => (wr_den r | L) /\ 0 < L) rest (go before rest)).
+  { induction rest as [|r rest IH]; intros before E; cbn; constructor.
+    - set (grp := filter (same_group r) rows).
+      assert (Eg : grp = filter (same_group r) before ++ r :: filter (same_group r) rest).
+      { unfold grp. rewrite E. apply filter_app_mid. apply same_group_refl. }
+      assert (Pg : Forall (fun x => 0 < x) (map wr_den grp)).
+      { apply Forall_forall. intros x Hx. apply in_map_iff in Hx. destruct Hx as [y [<- Hy]].
+        unfold grp in Hy. apply filter_In in Hy. destruct Hy as [Hy _]. rewrite Forall_forall in P. apply P. exact Hy. }
+      destruct (find_lcm_spec thr (map wr_den grp) Pg) as [_ S].
+      specialize (S (length (filter (same_group r) before))).
+      assert (Lt : (length (filter (same_group r) before) < length (map wr_den grp))%nat).
+      { rewrite map_length, Eg, app_length. cbn. lia. }
+      destruct (S Lt) as [D [Pos _]].
+      rewrite Eg in D at 1. rewrite nth_middle_map in D. split; assumption.
+    - apply IH. rewrite E, <- app_assoc. reflexivity. }
+  apply (G rows []). reflexivity.
+Qed.
+
+(* whole slot table: every row (hit, hold head, LN tail, tempo object) is put, in a line of L = new_den slots, at slot
+   num * (L / den): an integer inside the line, denoting exactly the row's own fraction num/den of the measure *)
+Theorem write_slots_positions (rows : list wrow) :
+  Forall (fun r => 0 < wr_den r /\ 0 <= wr_num r < wr_den r) rows ->
+  Forall2 (fun r s => ws_measure s = wr_measure r /\ ws_channel s = wr_channel r /\ ws_value s = wr_value r
+                      /\ 0 <= ws_slot s < ws_L s
+                      /\ (inject_Z (ws_slot s) / inject_Z (ws_L s) == inject_Z (wr_num r) / inject_Z (wr_den r))%Q)
+          rows (map (fun p => slot_of (fst p) (snd p)) (combine rows (new_dens LCM_THRESHOLD rows))).
+Proof.
+  intro P.
+  assert (D : Forall2 (fun r L => (wr_den r | L) /\ 0 < L) rows (new_dens LCM_THRESHOLD rows)).
+  { apply new_dens_divisible. eapply Forall_impl; [|exact P]. intros r [A _]. exact A. }
+  revert P. induction D as [|r L rows nd [Dv Lp] _ IH]; intro P; cbn [combine map]; constructor.
+  - inversion P as [|? ? [Dp Np] _]; subst. cbn [fst snd].
+    destruct (slot_arith r L Dp Dv Np Lp) as [_ [R E]].
+    unfold slot_of in *. cbn [ws_measure ws_channel ws_value ws_slot ws_L] in *. repeat split; auto; lia.
+  - apply IH. inversion P; assumption.
+Qed.
+
+Definition slot_rel (r : wrow) (s : wslot) : Prop :=
+  ws_measure s = wr_measure r /\ ws_channel s = wr_channel r /\ ws_value s = wr_value r
+  /\ 0 <= ws_slot s < ws_L s
+  /\ (inject_Z (ws_slot s) / inject_Z (ws_L s) == inject_Z (wr_num r) / inject_Z (wr_den r))%Q.
+
+(* uniqueness: two written objects share (measure, channel, position) only if their rows already did -- rows at distinct
+   (measure, channel, fraction) are never merged, whatever line lengths find_lcm chose *)
+Theorem written_positions_unique r s r' s' :
+  slot_rel r s -> slot_rel r' s' ->
+  ws_measure s = ws_measure s' -> ws_channel s = ws_channel s' ->
+  (inject_Z (ws_slot s) / inject_Z (ws_L s) == inject_Z (ws_slot s') / inject_Z (ws_L s'))%Q ->
+  wr_measure r = wr_measure r' /\ wr_channel r = wr_channel r'
+  /\ (inject_Z (wr_num r) / inject_Z (wr_den r) == inject_Z (wr_num r') / inject_Z (wr_den r'))%Q.
+Proof.
+  intros [M [C [_ [_ E]]]] [M' [C' [_ [_ E']]]] Hm Hc Hp.
+  repeat split; try congruence. rewrite <- E, <- E'. exact Hp.
+Qed.
